@@ -8,8 +8,25 @@ let show_writen = function
   | Crash _ -> "CRASH"
   | OutOfFuel -> "OUTOFFUEL"
 
+let show_item (it, left) =
+  let l = string_of_int (int_of_nat left) in
+  match it with
+  | Line b -> "L" ^ hex_of_bytes b ^ "@" ^ l
+  | Einval -> "EINVAL@" ^ l
+  | E2big -> "E2BIG@" ^ l
+  | Dead -> "DEAD"
+  | Stuck -> "STUCK"
+
+let cuts_of_hex h = List.map nat_of_int (ints_of_hex h)
+let show_reader stream cuts =
+  String.concat "" (List.map (fun x -> " " ^ show_item x) (run_reader stream (cuts_of_hex cuts)))
+
 let model fs = match fs with
   | "aa" :: s0 :: parts -> show_writen (net_writen (bytes_of_hex s0) (List.map bytes_of_hex parts))
+  | ["bb"; stream] -> String.trim (show_reader (bytes_of_hex stream) "-")
+  | "bb" :: stream :: cuts ->
+      let st = bytes_of_hex stream in
+      String.trim (String.concat " ||" (List.map (show_reader st) cuts))
   | _ -> "BADCASE"
 
 let pre_c10 s0 parts =
@@ -20,7 +37,37 @@ let pre_c10 s0 parts =
   && (match b with a :: b :: c :: _ -> List.for_all (fun d -> d >= 48 && d <= 57) [a; b; c] | _ -> false)
   && List.for_all (fun p -> List.for_all (fun x -> x <> 13 && x <> 10 && x <> 0) (ints_of_hex p)) parts
 
+(* parse the harness' reader output back into observations *)
+let parse_obs (toks : string list) : (item * nat) list list =
+  let parse_tok t =
+    if t = "DEAD" then (Dead, O)
+    else match String.index_opt t '@' with
+      | None -> (Stuck, O)
+      | Some i ->
+          let a = String.sub t 0 i and l = nat_of_int (int_of_string (String.sub t (i + 1) (String.length t - i - 1))) in
+          if a = "EINVAL" then (Einval, l) else if a = "E2BIG" then (E2big, l)
+          else if String.length a >= 1 && a.[0] = 'L' then (Line (bytes_of_hex (String.sub a 1 (String.length a - 1))), l)
+          else (Stuck, l) in
+  let rec go cur acc = function
+    | [] -> List.rev (List.rev cur :: acc)
+    | "||" :: r -> go [] (List.rev cur :: acc) r
+    | t :: r -> go (parse_tok t :: cur) acc r in
+  go [] [] toks
+
+let spec_c05 stream obs =
+  let st = bytes_of_hex stream in
+  let n = nat_of_int (List.length st) in
+  let runs = parse_obs obs in
+  let bad = ref [] in
+  if not (List.for_all (fun o -> shape_ok st n o) runs) then bad := "shape" :: !bad;
+  if not (List.for_all (fun o -> resync_ok st n o) runs) then bad := "resync" :: !bad;
+  (match runs with
+   | a :: rest -> if not (List.for_all (fun b -> sched_ok a b) rest) then bad := "sched" :: !bad
+   | [] -> bad := "shape" :: !bad);
+  if !bad = [] then "ok" else "bad:" ^ String.concat "," (List.rev !bad)
+
 let spec fs obs = match fs, obs with
+  | "bb" :: stream :: _, _ -> spec_c05 stream obs
   | "aa" :: s0 :: parts, _ when not (pre_c10 s0 parts) -> "pre"
   | "aa" :: s0 :: parts, "OK" :: lines ->
       if spec_ok_C10 (bytes_of_hex s0) (List.map bytes_of_hex parts) (List.map bytes_of_hex lines) then "ok" else "bad"
